@@ -184,6 +184,23 @@ fn gen_case(seed: u64, tier: Tier) -> Case {
 		}
 		cmds.sort_by_key(|c| c.0);
 	}
+	// (long runs: half of them are stopped early with a fade that outlasts everything the
+	// streaming sound had buffered when the stop was issued - the decoder must keep feeding it)
+	if long && !long_edge && rng.chance(0.5) {
+		let fade_frames = rng.urange(17_000, 30_000);
+		cmds.push((
+			rng.urange(1, 4).min(chunks.len() - 1),
+			SoundCmd::Stop(TweenSpec {
+				start: StartSpec::Immediate,
+				dur: fade_frames as f64 / (sample_rate as f64 * rate.max(0.5)),
+				easing: EasingSpec::Linear,
+			}),
+		));
+		while total < fade_frames + 4 * long_chunk {
+			chunks.push(long_chunk);
+			total += long_chunk;
+		}
+	}
 	Case {
 		seed,
 		decoder,
@@ -379,7 +396,7 @@ impl Check for C09 {
 		CheckInfo {
 			id: "C09",
 			level: "exploration",
-			rule: "each case = audio content + length (0..3000; 3% long runs of 17 000..45 000 frames or a short loop played that long, so that the streaming ring buffer's 16384 slots wrap), slice, start position, loop region, rate >= 0 (incl. 0), volume / panning, fade-in, a command history (pause / resume / resume_at / stop / set_volume / set_playback_rate / set_panning with tweens, no seeks), decoder packet-size cycle (0..1000, variable) and seek granularity (1..1000), device rate and chunk-size sequence; the static and the streaming implementation run side by side; non-trivial = non-silent output; distinct = hash of (state after each chunk, ended, loop, seek granularity class, rate class)",
+			rule: "each case = audio content + length (0..3000; 3% long runs of 17 000..45 000 frames or a short loop played that long, so that the streaming ring buffer's 16384 slots wrap; a third of those end exactly where the push that fills the ring is the last frame, half of the rest are stopped with a fade longer than the ring holds), slice, start position, loop region, rate >= 0 (incl. 0), volume / panning, fade-in, a command history (pause / resume / resume_at / stop / set_volume / set_playback_rate / set_panning with tweens, no seeks), decoder packet-size cycle (0..1000, variable) and seek granularity (1..1000), device rate and chunk-size sequence; the static and the streaming implementation run side by side; non-trivial = non-silent output; distinct = hash of (state after each chunk, ended, loop, seek granularity class, rate class)",
 			assumptions: vec![
 				"both sounds are driven directly through the public Sound trait (on_start_processing + process) with an empty MockInfo".into(),
 				"'decoder keeps ahead' = the gated decoder task is run until it sleeps on a full ring or ends before every callback; chunks are at most 200 frames at rate <= 3, far below the 16384-frame ring".into(),
